@@ -4,4 +4,5 @@ INVARIANT Linear
 INVARIANT TableAgrees
 INVARIANT PointsAgree
 INVARIANT Monolayer
+INVARIANT RoqMonotone
 CHECK_DEADLOCK FALSE
